@@ -1,4 +1,9 @@
 from verif import Q
+try:
+    import C07_t0_part as _t0
+except Exception as _e:   # the T0-native part needs encoders/t0tool.py
+    _t0 = None
+    _t0_err = repr(_e)
 
 META = {
  "level_text": "Bounded symbolic model checking (CBMC). Record layer: two-run equivalence on the real ssl_engine.c - acknowledging a then b bytes equals acknowledging a+b bytes, from any input-accepting engine state, including splits inside the 5-byte header. Streaming decoders (T0): resume mechanics of the natives that consume input (being added through the T0 native extractor). Partial: whole-decoder chunk independence over long inputs and the emitted-bytes determinism of a TLS endpoint are outside.",
@@ -8,6 +13,17 @@ META = {
  "outside_claim": ["TLS endpoint emitted-bytes determinism", "whole-decoder chunk independence beyond the natives' resume lemmas"],
 }
 
-def queries():
+def _base_queries():
     return [Q("recvrec-ack-split", "C07_recsplit.c", units=["src/ssl/ssl_engine.c"], unwind=8, timeout=600,
               desc="recvrec_ack(a);recvrec_ack(b) == recvrec_ack(a+b) from any input-accepting state (header phase or encrypted body), buffer 837")]
+
+
+def queries():
+    qs = _base_queries()
+    if _t0 is not None:
+        qs = qs + _t0.queries()
+    return qs
+
+if _t0 is not None:
+    META["assumptions"] = list(META.get("assumptions", [])) + list(getattr(_t0, "ASSUMPTIONS", []))
+    META["mutants_tried"] = list(META.get("mutants_tried", [])) + list(getattr(_t0, "MUTANTS", []))
